@@ -89,6 +89,23 @@ let run (c : string) (obs : string) : string * string * string =
         if ue <> "0" || ie <> "0" then add "kind=integer-text-rejected";
         if not (BZ.equal (uval (fst uw) (snd uw)) (clamp BZ.zero (BZ.pred p128) zz)) then add "kind=uint128-fromstring-not-clamped-value";
         if not (BZ.equal (sval (fst iw) (snd iw)) (clamp (BZ.neg p127) (BZ.pred p127) zz)) then add "kind=int128-fromstring-not-clamped-value"
+      end else if (try ignore (Str.search_forward (Str.regexp "^[+-]?[0-9]+\\(\\.[0-9]+\\)?[eE][+-]?[0-9]+$") txt 0); true with Not_found -> false) then begin
+        (* exponent notation: accepted exactly when it denotes an integer, and then clamped like any other *)
+        let lower = String.lowercase_ascii txt in
+        let ei = String.index lower 'e' in
+        let mant = String.sub lower 0 ei and ex = int_of_string (let e = String.sub lower (ei + 1) (String.length lower - ei - 1) in if e.[0] = '+' then String.sub e 1 (String.length e - 1) else e) in
+        let mant = if mant.[0] = '+' then String.sub mant 1 (String.length mant - 1) else mant in
+        let (ip, fp) = (match String.index_opt mant '.' with Some d -> (String.sub mant 0 d, String.sub mant (d + 1) (String.length mant - d - 1)) | None -> (mant, "")) in
+        let q = BQ.make (BZ.of_string (ip ^ fp)) (BZ.pow (BZ.of_int 10) (String.length fp)) in
+        if abs ex <= 60 then begin
+          let q = if ex >= 0 then BQ.mul q (BQ.of_bigint (BZ.pow (BZ.of_int 10) ex)) else BQ.div q (BQ.of_bigint (BZ.pow (BZ.of_int 10) (- ex))) in
+          if BZ.equal (BQ.den q) BZ.one then begin
+            let zz = BQ.num q in
+            if ue <> "0" || ie <> "0" then add "kind=integer-text-rejected";
+            if not (BZ.equal (uval (fst uw) (snd uw)) (clamp BZ.zero (BZ.pred p128) zz)) then add "kind=uint128-fromstring-not-clamped-value";
+            if not (BZ.equal (sval (fst iw) (snd iw)) (clamp (BZ.neg p127) (BZ.pred p127) zz)) then add "kind=int128-fromstring-not-clamped-value"
+          end else if ue <> "1" || ie <> "1" then add "kind=non-integer-text-accepted"
+        end
       end else if not other_spelling then begin
         (* neither a decimal integer nor one of the other integer spellings: must be rejected *)
         if ue <> "1" || ie <> "1" then add "kind=non-integer-text-accepted"
